@@ -20,6 +20,8 @@ def value_corpus(F, tier, name):
     recs += gen.g_exact_products(F, rng, tier)
     recs += gen.g_lo_ones(F, rng, tier)
     recs += gen.g_tie_digit_counts(F, rng, tier)
+    recs += gen.g_disguised_wrap(F, rng, tier)
+    recs += gen.g_budget_splits(F, rng, tier)[:: 3 if q else 1]
     recs += gen.g_extremes(F, rng, big=20000 if q else 1000000)
     recs += gen.g_runs(F, rng, 80 if q else 3000)
     return gen.normalise(gen.dedup(recs))
@@ -56,7 +58,8 @@ def c01(tier):
              "midpoints), G10 (integer ties + one bit), G11 (every binade beyond the range ends), G12 (every decade, 17..19-digit "
              "truncations), G13 (carry into the next binade incl. subnormal -> normal), G14 (d x 10^q for every q), G15 (exact "
              "64-bit products w x 5^q with forced low-bit patterns), G16 (first product's low word all ones), G17 (exact "
-             "ties for every digit count and both ends of a decade); "
+             "ties for every digit count and both ends of a decade), G18 (disguised fast path: scaled significand wraps), "
+             "G19 (decimal point at every position next to the digit budget); "
              "distinct = distinct (int,frac,exp) triples; "
              "every record is adjudicated by TLC with IEEE!Judge",
         level_note="TLC evaluates the declarative rounding definition (IEEE.tla) on each (input, bits) pair observed "
@@ -388,6 +391,10 @@ def c03(tier):
             b = int.from_bytes(raw, "little")
             if 0 < b < F.infbits:
                 floats.append({"fmt": F.name, "bits": core.limbs(b), "only": "shortest"})
+    # floats whose shortest rendering takes the disguised fast path with a scaled significand that wraps 64 bits
+    for (m, qq) in gen.disguised_wrap(gen.F64, rng, 6 if tier == "quick" else 200):
+        x = float("%de%d" % (m, qq))
+        floats.append({"fmt": "f64", "bits": core.limbs(struct.unpack("<Q", struct.pack("<d", x))[0]), "only": "shortest"})
     inp = os.path.join(wd, "floats.ndjson")
     core.write_ndjson(inp, floats)
     bindir = core.build_harness("std", bins=["gen_render"])
@@ -417,6 +424,7 @@ def long_corpus(F, tier, name):
     recs = [r for r in recs if len(r["int"]) + len(r["frac"]) > 19]
     recs += gen.g_runs(F, rng, 100 if q else 4000)
     recs += gen.g_int_ties(F, rng, 30 if q else 600)
+    recs += gen.g_budget_splits(F, rng, tier)
     big = 100000 if q else 1000000
     # exact ties with a far-out digit / tails of every length class
     for ef in rng.sample(range(1, F.emaxfield), 5 if q else 80):
